@@ -103,6 +103,7 @@ def oracle(rng, tier):
         Tp = rng.uniform(120, T - 5) if mode == 'temp' else None
         pp = rng.uniform(0.0, 5.0) if mode == 'press' else None
         units = rng.choice([KG, 'SI', 'GPU'])
+        T, Tp, pp = gens.maybe_int(rng, T), gens.maybe_int(rng, Tp), gens.maybe_int(rng, pp, 0.3)
         case = {'mixture': gens.describe_mixture(m), 'T': T, 'xs': xs, 'basis': basis, 'P1': P1, 'P2': P2, 'mode': mode, 'Tp': Tp, 'pp': pp, 'units': units}
         for kind, ok, detail in check_case(m, T, xs, basis, P1, P2, mode, Tp, pp, units):
             yield {'kind': kind, 'case': case, 'ok': ok, 'detail': detail, 'nontrivial': mode != 'vac' or units != KG}
